@@ -170,6 +170,8 @@ def gen_modgraph(rng, profile=None):
             if access == "protected":
                 form = "attr"
             ent = {"name": ename, "kind": kind, "access": access, "form": form, "tr": tr()}
+            if pr.get("undoc", True) and rng.random() < 0.15:
+                ent["undoc"] = True   # no doc comment: hidden by hide_undoc
             if kind == "generic":
                 sp = {"name": ename + "x", "kind": "sub", "access": rng.choice([None, "private"]), "form": "stmt",
                       "tr": tr()}
@@ -314,6 +316,14 @@ def _use_line(rng_case, u):
     return s
 
 
+def _doc_line(e, indent):
+    return [] if e.get("undoc") else ["%s!! %s" % (indent, e["tr"])]
+
+
+def _doc_inline(e):
+    return "" if e.get("undoc") else " !! %s" % e["tr"]
+
+
 def render_module(mod, rng):
     L = ["module %s" % mod["name"], "  !! %s" % mod["tr"]]
     for u in mod["uses"]:
@@ -338,31 +348,31 @@ def render_module(mod, rng):
         k = e["kind"]
         if k == "var":
             ty = "type(%s)" % e["vtype"] if e.get("vtype") else "integer"
-            L.append("  %s%s :: %s !! %s" % (ty, attr, e["name"], e["tr"]))
+            L.append("  %s%s :: %s%s" % (ty, attr, e["name"], _doc_inline(e)))
         elif k == "param":
-            L.append("  integer, parameter%s :: %s = %d !! %s" % (attr, e["name"], len(e["name"]), e["tr"]))
+            L.append("  integer, parameter%s :: %s = %d%s" % (attr, e["name"], len(e["name"]), _doc_inline(e)))
         elif k == "type":
             ext = ", extends(%s)" % e["extends"] if e.get("extends") else ""
             L.append("  type%s%s :: %s" % (attr, ext, e["name"]))
-            L.append("    !! %s" % e["tr"])
+            L.extend(_doc_line(e, "    "))
             L.append("    integer :: c_%s" % e["name"])
             if e.get("comp_type"):
                 L.append("    type(%s) :: k_%s" % (e["comp_type"], e["name"]))
             L.append("  end type %s" % e["name"])
         elif k == "generic":
             L.append("  interface %s" % e["name"])
-            L.append("    !! %s" % e["tr"])
+            L.extend(_doc_line(e, "    "))
             L.append("    module procedure %s" % e["specific"])
             L.append("  end interface %s" % e["name"])
         elif k == "absint":
             L.append("  abstract interface")
             L.append("    subroutine %s()" % e["name"])
-            L.append("      !! %s" % e["tr"])
+            L.extend(_doc_line(e, "      "))
             L.append("    end subroutine %s" % e["name"])
             L.append("  end interface")
         elif k == "sub":
             arg = e["name"] + "_a" if (e.get("argtype") or e.get("uses")) else ""
-            contains += ["  subroutine %s(%s)" % (e["name"], arg), "    !! %s" % e["tr"]]
+            contains += ["  subroutine %s(%s)" % (e["name"], arg)] + _doc_line(e, "    ")
             for u in e.get("uses") or []:
                 contains.append("    " + _use_line(rng, u))
             if arg:
@@ -373,14 +383,14 @@ def render_module(mod, rng):
         elif k == "iface":
             L.append("  interface")
             L.append("    subroutine %s(%s_a)" % (e["name"], e["name"]))
-            L.append("      !! %s" % e["tr"])
+            L.extend(_doc_line(e, "      "))
             for u in e.get("uses") or []:
                 L.append("      " + _use_line(rng, u))
             L.append("      %s :: %s_a" % ("type(%s)" % e["argtype"] if e.get("argtype") else "integer", e["name"]))
             L.append("    end subroutine %s" % e["name"])
             L.append("  end interface")
         elif k == "func":
-            contains += ["  integer function %s()" % e["name"], "    !! %s" % e["tr"],
+            contains += ["  integer function %s()" % e["name"]] + _doc_line(e, "    ") + [
                          "    %s = 1" % e["name"], "  end function %s" % e["name"]]
     if mod.get("smod_iface"):
         L += ["  interface", "    module subroutine %s()" % mod["smod_iface"],
